@@ -376,7 +376,7 @@ theorem uws_spec (L : Location) (pl : PKey) (b : Blk) (st : Strand) (pb : PKey) 
     refine ⟨r, ?_, hs⟩
     unfold unionWithSingle
     simp only [locStrand, hgate, hreq]
-    cases pl <;> simp [hr] <;> rfl
+    cases pl <;> cases pb <;> simp [hr] <;> rfl
   | compound la =>
     simp only [locationStrand?, Option.some.injEq] at hst
     subst hst
@@ -384,30 +384,31 @@ theorem uws_spec (L : Location) (pl : PKey) (b : Blk) (st : Strand) (pb : PKey) 
     refine ⟨r, ?_, hs⟩
     unfold unionWithSingle
     simp only [locStrand, hgate, hr, hreq]
-    cases pl <;> simp <;> rfl
+    cases pl <;> cases pb <;> simp <;> rfl
 
 theorem uws_none (L : Location) (pl : PKey) (b : Blk) (sb : Strand) (pb : PKey)
-    (h : locationStrand? L ≠ some sb ∨ (pl ≠ [] ∧ sameParent pl pb = false)) :
+    (h : locationStrand? L ≠ some sb ∨ sameParent pl pb = false) :
     ans (unionWithSingle (L, pl) b sb pb) = none := by
+  have hcond : sameParent pl pb = false → (!pl.isEmpty || !pb.isEmpty) = true := by
+    intro h2
+    cases pl <;> cases pb <;> simp_all [sameParent]
   unfold unionWithSingle
   cases L with
   | empty => rfl
   | single a sa =>
     by_cases hs : sa = sb
     · subst hs
-      rcases h with h | ⟨h1, h2⟩
+      rcases h with h | h2
       · exact absurd rfl h
-      · have he : pl.isEmpty = false := by simpa using h1
-        simp [locStrand, he, requireParentsEq_eq, h2]
+      · simp [locStrand, hcond h2, requireParentsEq_eq, h2]
         rfl
     · simp [locStrand, hs]; rfl
   | compound la =>
     by_cases hs : la.strand = sb
     · subst hs
-      rcases h with h | ⟨h1, h2⟩
+      rcases h with h | h2
       · exact absurd rfl h
-      · have he : pl.isEmpty = false := by simpa using h1
-        simp [locStrand, he, requireParentsEq_eq, h2]
+      · simp [locStrand, hcond h2, requireParentsEq_eq, h2]
         rfl
     · simp [locStrand, hs]; rfl
 
@@ -523,19 +524,16 @@ theorem okUnion_of (a b : PLoc) (ha : WFP a) (hb : WFP b) (hsp : sameParent a.2 
     · simp [strandIs, h]
     · simp [strandIs, h]
 
-theorem parCheck {β : Type} (a2 b2 : PKey) (hj : ¬ (a2 = [] ∧ b2 ≠ [])) (K : R β) :
-    (if (!a2.isEmpty) = true then (requireParentsEq a2 b2 >>= fun _ => K) else K) =
+theorem parCheck {β : Type} (a2 b2 : PKey) (K : R β) :
+    (if (!a2.isEmpty || !b2.isEmpty) = true then (requireParentsEq a2 b2 >>= fun _ => K) else K) =
       if sameParent a2 b2 then K else .error .MismatchedParent := by
   cases a2 with
   | nil =>
-    have : b2 = [] := by
-      cases b2 with
-      | nil => rfl
-      | cons y ys => exact absurd ⟨rfl, by simp⟩ hj
-    subst this
-    rfl
+    cases b2 with
+    | nil => rfl
+    | cons y ys => rfl
   | cons x xs =>
-    simp only [List.isEmpty_cons, Bool.not_false, if_true]
+    simp only [List.isEmpty_cons, Bool.not_false, Bool.true_or, if_true]
     rw [requireParentsEq_eq]
     split <;> rfl
 
@@ -558,11 +556,6 @@ theorem unionP_spec (a b : PLoc) (ha : WF a.1) (hb : WF b.1) (hsp : sameParent a
   obtain ⟨A, pa⟩ := a
   obtain ⟨B, pb⟩ := b
   simp only at ha hb hsp hsa hsb ⊢
-  have hj : ¬ (pa = [] ∧ pb ≠ []) := by
-    rintro ⟨h1, h2⟩
-    subst h1
-    rw [sameParent_nil_left] at hsp
-    exact h2 (by simpa using hsp)
   have hsp' : sameParent pb pa = true := by rw [sameParent_symm]; exact hsp
   cases B with
   | empty => simp [locationStrand?] at hsb
@@ -589,11 +582,11 @@ theorem unionP_spec (a b : PLoc) (ha : WF a.1) (hb : WF b.1) (hsp : sameParent a
       refine ⟨r, pb, ?_, Or.inr rfl, hs.wf, hs.strand, ?_, ?_, fun _ h => hs.disj h⟩
       · have : unionP (.single x sa, pa) (.compound lb, pb) =
             (do if sa ≠ lb.strand then throw Err.ValueError
-                if (!pa.isEmpty) = true then requireParentsEq pa pb
+                if (!pa.isEmpty || !pb.isEmpty) = true then requireParentsEq pa pb
                 unionWithSingle (.compound lb, pb) x sa pa) := rfl
         rw [this]
         simp only [hsb, ne_eq, not_true_eq_false, if_false]
-        rw [parCheck pa pb hj, hsp]
+        rw [parCheck pa pb, hsp]
         simp only [if_true]
         exact hr
       · intro q
@@ -644,22 +637,13 @@ theorem unionP_spec (a b : PLoc) (ha : WF a.1) (hb : WF b.1) (hsp : sameParent a
       refine ⟨r, p0, ?_, ?_, h1, ?_, ?_, ?_, fun _ _ => h4⟩
       · have : unionP (.compound la, pa) (.compound lb, pb) =
             (do if la.strand ≠ lb.strand then throw Err.ValueError
-                if (!pa.isEmpty) = true then requireParentsEq pa pb
-                if idsIncomparable pa pb then throw Err.TypeError
+                if (!pa.isEmpty || !pb.isEmpty) = true then requireParentsEq pa pb
                 mergeBlocks (sortSingles (la.blocks.map (fun x => (x, pa)) ++ lb.blocks.map (fun x => (x, pb))))
                   la.strand) := rfl
         rw [this]
         simp only [hsa, hsb, ne_eq, not_true_eq_false, if_false]
-        rw [parCheck pa pb hj, hsp]
-        have hinc : idsIncomparable pa pb = false := by
-          unfold idsIncomparable
-          cases pa with
-          | nil =>
-            cases pb with
-            | nil => rfl
-            | cons y ys => exact absurd ⟨rfl, by simp⟩ hj
-          | cons x xs => rfl
-        simp only [if_true, hinc, Bool.false_eq_true, if_false]
+        rw [parCheck pa pb, hsp]
+        simp only [if_true]
         rw [withPar_of_ne r p0 (good_ne_empty r h3), ← hsa]
         exact hr
       · rcases hmem x0 hx0 with ⟨_, h⟩ | ⟨_, h⟩
@@ -673,20 +657,10 @@ theorem unionP_spec (a b : PLoc) (ha : WF a.1) (hb : WF b.1) (hsp : sameParent a
         rw [maxEndOf_perm hmapfst, maxEndOf_append] at this
         exact this
 
-theorem unionP_none (a b : PLoc) (hj : ¬ OneSidedParent a b) (href : unionRefused a b = true) :
+theorem unionP_none (a b : PLoc) (href : unionRefused a b = true) :
     ans (unionP a b) = none := by
   obtain ⟨A, pa⟩ := a
   obtain ⟨B, pb⟩ := b
-  have hj' : ¬ (pa = [] ∧ pb ≠ []) := hj
-  have hpa : sameParent pa pb = false → pa ≠ [] := by
-    intro h hpa
-    subst hpa
-    have : pb = [] := by
-      cases pb with
-      | nil => rfl
-      | cons y ys => exact absurd ⟨rfl, by simp⟩ hj'
-    subst this
-    simp [sameParent] at h
   cases A with
   | empty => rfl
   | single x sa =>
@@ -700,19 +674,19 @@ theorem unionP_none (a b : PLoc) (hj : ¬ OneSidedParent a b) (href : unionRefus
         right
         have : sameParent pa pb = false := by
           simpa [unionRefused, strandEq, locationStrand?] using href
-        exact ⟨hpa this, this⟩
+        exact this
       · left; simpa [locationStrand?] using hs
     | compound lb =>
       have : unionP (.single x sa, pa) (.compound lb, pb) =
           (do if sa ≠ lb.strand then throw Err.ValueError
-              if (!pa.isEmpty) = true then requireParentsEq pa pb
+              if (!pa.isEmpty || !pb.isEmpty) = true then requireParentsEq pa pb
               unionWithSingle (.compound lb, pb) x sa pa) := rfl
       rw [this]
       by_cases hs : sa = lb.strand
       · have hsp : sameParent pa pb = false := by
           simpa [unionRefused, strandEq, locationStrand?, hs] using href
         simp only [hs, ne_eq, not_true_eq_false, if_false]
-        rw [parCheck pa pb hj', hsp]
+        rw [parCheck pa pb, hsp]
         rfl
       · simp only [ne_eq, hs, not_false_eq_true, if_true]
         rfl
@@ -727,13 +701,12 @@ theorem unionP_none (a b : PLoc) (hj : ¬ OneSidedParent a b) (href : unionRefus
         right
         have : sameParent pa pb = false := by
           simpa [unionRefused, strandEq, locationStrand?] using href
-        exact ⟨hpa this, this⟩
+        exact this
       · left; simpa [locationStrand?] using hs
     | compound lb =>
       have : unionP (.compound la, pa) (.compound lb, pb) =
           (do if la.strand ≠ lb.strand then throw Err.ValueError
-              if (!pa.isEmpty) = true then requireParentsEq pa pb
-              if idsIncomparable pa pb then throw Err.TypeError
+              if (!pa.isEmpty || !pb.isEmpty) = true then requireParentsEq pa pb
               mergeBlocks (sortSingles (la.blocks.map (fun x => (x, pa)) ++ lb.blocks.map (fun x => (x, pb))))
                 la.strand) := rfl
       rw [this]
@@ -741,7 +714,7 @@ theorem unionP_none (a b : PLoc) (hj : ¬ OneSidedParent a b) (href : unionRefus
       · have hsp : sameParent pa pb = false := by
           simpa [unionRefused, strandEq, locationStrand?, hs] using href
         simp only [hs, ne_eq, not_true_eq_false, if_false]
-        rw [parCheck pa pb hj', hsp]
+        rw [parCheck pa pb, hsp]
         rfl
       · simp only [ne_eq, hs, not_false_eq_true, if_true]
         rfl
@@ -768,13 +741,13 @@ namespace BioCantor.Proofs
 open BioCantor BioCantor.Spec BioCantor.Model
 
 /-- C02-T3: union covers exactly the positions of either operand, keeps the strand, is well formed and inside the
-    parent; it is refused exactly for EmptyLocation operands, different strands, incompatible parents (outside the
-    one-sided corner F-C19j) -/
-theorem unionP_ok (a b : PLoc) (ha : WFP a) (hb : WFP b) (hj : ¬ OneSidedParent a b) :
+    parent; it is refused exactly for EmptyLocation operands, different strands, incompatible parents (the parent
+    test is two-sided since the repair of F-C19j) -/
+theorem unionP_ok (a b : PLoc) (ha : WFP a) (hb : WFP b) :
     okUnion a b (ans (unionP a b)) = true := by
   cases href : unionRefused a b with
   | true =>
-    rw [Union.unionP_none a b hj href]
+    rw [Union.unionP_none a b href]
     simp [okUnion, href]
   | false =>
     obtain ⟨st, hsa, hsb, hsp⟩ := Union.not_refused a b href
@@ -783,16 +756,14 @@ theorem unionP_ok (a b : PLoc) (ha : WFP a) (hb : WFP b) (hj : ¬ OneSidedParent
     exact Union.okUnion_of a b ha hb hsp st hsa hsb r pr hpr h1 h2 h3 h4
 
 example : WFP ((.compound ⟨[(0, 2), (2, 2), (3, 5)], .minus⟩), [(some "chrA", none, some ['A','C','G','T','A'])]) ∧
-    WFP ((.compound ⟨[(1, 4), (4, 5)], .minus⟩), [(some "chrA", none, some ['A','C','G','T','A'])]) ∧
-    ¬ OneSidedParent ((.compound ⟨[(0, 2), (2, 2), (3, 5)], .minus⟩), [(some "chrA", none, some ['A','C','G','T','A'])])
-      ((.compound ⟨[(1, 4), (4, 5)], .minus⟩), [(some "chrA", none, some ['A','C','G','T','A'])]) := by decide
+    WFP ((.compound ⟨[(1, 4), (4, 5)], .minus⟩), [(some "chrA", none, some ['A','C','G','T','A'])]) := by decide
 
 /-- operands without self-overlap give a union without overlapping blocks -/
-theorem unionP_disjoint (a b : PLoc) (ha : WFP a) (hb : WFP b) (hj : ¬ OneSidedParent a b) :
+theorem unionP_disjoint (a b : PLoc) (ha : WFP a) (hb : WFP b) :
     okUnionDisjoint a b (ans (unionP a b)) = true := by
   cases href : unionRefused a b with
   | true =>
-    rw [Union.unionP_none a b hj href]
+    rw [Union.unionP_none a b href]
     rfl
   | false =>
     obtain ⟨st, hsa, hsb, hsp⟩ := Union.not_refused a b href
